@@ -374,6 +374,33 @@ def build(ctx):
                 sched.sanitize()
     for i, r in edges[half:]:
         ctx.obj[i].requires(ctx.obj[r])
+    if prep == 3:
+        # the scenario's graph is reached through an edit history: an extra job is
+        # spliced into one requirement edge of each scheduler, the query API is used,
+        # and the extra job is bypassed and removed again.  It must never run.
+        class Alien(AbstractJob):
+            async def co_run(self):
+                ctx.log("alien", 0, "run")
+
+            async def co_shutdown(self):
+                ctx.log("alien", 0, "shutdown")
+        for s in range(1, n + 1):
+            sched = ctx.obj[s]
+            if not isinstance(sched, PureScheduler):
+                continue
+            mine = [(i, r) for (i, r) in edges if ctx.g("parent", i) == s]
+            if not mine:
+                continue
+            i, r = mine[(ctx.hk("hash", s, s)) % len(mine)]
+            mid = Alien(critical=False, label="alien")
+            mid.requires(ctx.obj[r])
+            ctx.obj[i].requires(ctx.obj[r], remove=True)
+            ctx.obj[i].requires(mid)
+            sched.add(mid)
+            list(sched.exit_jobs())
+            sched.successors_downstream(ctx.obj[r])
+            sched.check_cycles()
+            sched.bypass_and_remove(mid)
     return top
 
 
